@@ -23,7 +23,8 @@ PROP = dict(
     design_ref="DESIGN.md 4.6",
     driver="c06",
     trace=dict(module="TraceContentGate", cfg="TraceContentGate.cfg"),
-    rule="case = one API (consumes list declared on the operation or globally, API default media type, registered consumers); "
+    rule="case = one API (the untyped API, or a hand-written generated-style RoutableAPI with exact-match ConsumersFor through "
+         "NewRoutableContext; consumes list declared on the operation or globally, API default media type, registered consumers); "
          "event = one request presented to the untyped handler and to Context.BindValidRequest. Exhaustive part: every "
          "consumes list of <=2/<=3 entries over the pool {a/x, a/y, b/x, a/*, */*, 'a/x; charset=utf-8', "
          "application/octet-stream} x default {none, a/x, b/y} x 2/4 registries, each with 47 header forms (absent, empty, "
